@@ -9,11 +9,15 @@
    literals the function uses (the translator prints numbers only), operators as a selector among
    slice.OpDrop/OpEmit/OpCopy/OpReplace.
 
-   ReaderModel.v USES the case labels and operators of readUnifiedChunk's body-line switch, the
-   command letters, operators and count cross-checks of readNormal; everything else is pinned
-   here: an added guard inside a case, an early return, a dropped, added or reordered statement,
-   a changed label, marker, side or condition makes one of these equations false (or loses the
-   anchor), and the build of Props/C14.vo stops here. *)
+   The models keep their literal transcription (selectors such as case:#k are positional: an
+   inserted case shifts them, and a model that followed them would turn a harmless insertion into
+   spurious disagreements with the implementation); what is proved here is that the transcription
+   IS what the regenerated values say: value by value ([formatters_as_modelled],
+   [readers_as_modelled]) and, for the readers' two switches, as functions
+   ([switches_as_generated]: read_uchunk_body and split_cmd equal the switches built from the
+   regenerated labels, operators and letters).  An added guard inside a case, an early return, a
+   dropped, added or reordered statement, a changed label, marker, side or condition makes one of
+   these equations false (or loses the anchor), and the build of Props/C14.vo stops here. *)
 From Coq Require Import NArith ZArith List Bool Lia.
 Import ListNotations.
 From Mds Require Import Gen.MdiffFmtSkel Gen.MdiffReadSkel Mdiff.ReaderModel.
@@ -106,6 +110,8 @@ Definition formatters_as_modelled : Prop :=
   picks2 1 normal_w1_pfx /\ picks2 sideY normal_w1_side /\
   picks2 0 normal_w2_pfx /\ picks2 sideX normal_w2_side /\
   picks2 1 normal_w3_pfx /\ picks2 sideY normal_w3_side /\
+  (* writeLines (write_lines): one fmt.Fprint(w, pfx, line, "\n") per line *)
+  picks3 0 writelines_arg1 /\ picks3 1 writelines_arg2 /\ picks3 2 writelines_arg3 /\ writelines_ncalls = 1 /\
   (* hasRelevantEdits (has_relevant_edits), fmtFileHeader (file_header) *)
   (forall same isrepl, relevant_cond same isrepl = same || isrepl) /\
   (forall zero, header_has_time zero = negb zero).
@@ -154,35 +160,68 @@ Definition readers_as_modelled : Prop :=
   (forall out : list (list line), rg_none_found (llen out) = is_nil out) /\
   (forall eof unexpected, rg_chunk_done eof unexpected = eof || unexpected) /\
   rg_ncalls_chunk = 1 /\ rg_ncalls_header = 1 /\
+  (* readline (split_lines): the saved line first; read up to '\n' and remove exactly that; at end
+     of input a non-empty rest is still a line *)
+  readline_delim = 10 /\ picks2 0 readline_trim_what /\ picks2 1 readline_trim_suffix /\
+  (forall b, readline_saved b = b) /\ (forall b, readline_eof b = b) /\ (forall b, readline_empty_rest b = b) /\
   (* readUnified (read_uchunks), scanToPrefix (scan_to_prefix) *)
   (forall eof, rus_eof eof = eof) /\ (forall failed, rus_err failed = failed) /\
   (forall prefix, stp_found prefix = prefix).
 
-(* What the generated values make of the model's two switches: exactly the transcription. *)
-Definition switches_as_transcribed : Prop :=
+(* Operators travel as the codes 0..3 (the order in which they are offered to the selectors),
+   string literals of one letter as the byte code of the letter. *)
+Definition op_of_code (z : Z) : op :=
+  if z =? 0 then Drop else if z =? 1 then Emit else if z =? 2 then Copy else Replace.
+Definition gen_op (f : Z -> Z -> Z -> Z -> Z) : op := op_of_code (f 0 1 2 3).
+Definition cmd_of_code (z : Z) : ncmd := if z =? 97 then CmdA else if z =? 99 then CmdC else CmdD.
+Definition gen_letter (f : Z -> Z -> Z -> Z) : Z := f 97 99 100.
+Definition is_cmd (a b : ncmd) : bool :=
+  match a, b with CmdA, CmdA | CmdC, CmdC | CmdD, CmdD => true | _, _ => false end.
+
+(* The model's switches, as functions, are the ones the regenerated labels, operators and letters
+   build. *)
+Definition switches_as_generated : Prop :=
+  (* readUnifiedChunk: switch line[0] { label: add(op, line[1:]) ... '@': stop; default: unexpected } *)
   (forall c t rest es,
     read_uchunk_body ((c :: t) :: rest) es =
-      if N.eqb c 32 then read_uchunk_body rest (add_text Emit t es)
-      else if N.eqb c 45 then read_uchunk_body rest (add_text Drop t es)
-      else if N.eqb c 43 then read_uchunk_body rest (add_text Copy t es)
-      else if N.eqb c 64 then (BodyNext, es, (c :: t) :: rest)
+      if N.eqb c (Z.to_N ru_case_ctx) then read_uchunk_body rest (add_text (gen_op ru_op_ctx) t es)
+      else if N.eqb c (Z.to_N ru_case_del) then read_uchunk_body rest (add_text (gen_op ru_op_del) t es)
+      else if N.eqb c (Z.to_N ru_case_ins) then read_uchunk_body rest (add_text (gen_op ru_op_ins) t es)
+      else if N.eqb c (Z.to_N ru_case_next) then (BodyNext, es, (c :: t) :: rest)
       else (BodyUnexpected, es, (c :: t) :: rest)) /\
+  (forall rest es, read_uchunk_body ([] :: rest) es = (BodyBlank, es, rest)) /\
+  (forall es, read_uchunk_body [] es = (BodyEof, es, [])) /\
+  (* readNormal: the three strings.Cut attempts in source order, each with the command it records *)
   (forall l,
     split_cmd l =
-      match cut_byte 97 l with
-      | Some (x, y) => Some (x, CmdA, y)
+      match cut_byte (Z.to_N (gen_letter rn_cut0)) l with
+      | Some (x, y) => Some (x, cmd_of_code (gen_letter rn_cmd0), y)
       | None =>
-        match cut_byte 99 l with
-        | Some (x, y) => Some (x, CmdC, y)
-        | None => match cut_byte 100 l with Some (x, y) => Some (x, CmdD, y) | None => None end
+        match cut_byte (Z.to_N (gen_letter rn_cut1)) l with
+        | Some (x, y) => Some (x, cmd_of_code (gen_letter rn_cmd1), y)
+        | None =>
+          match cut_byte (Z.to_N (gen_letter rn_cut2)) l with
+          | Some (x, y) => Some (x, cmd_of_code (gen_letter rn_cmd2), y)
+          | None => None
+          end
         end
       end) /\
-  gen_op rn_op0 = Copy /\ gen_op rn_op1 = Replace /\ gen_op rn_op2 = Drop.
+  (* switch cmd: the operator of each case (the model: CmdA -> Copy, CmdC -> Replace, CmdD -> Drop) *)
+  cmd_of_code (gen_letter rn_case0) = CmdA /\ gen_op rn_op0 = Copy /\
+  cmd_of_code (gen_letter rn_case1) = CmdC /\ gen_op rn_op1 = Replace /\
+  cmd_of_code (gen_letter rn_case2) = CmdD /\ gen_op rn_op2 = Drop /\
+  (* the cross-checks of the line counts, in the model's own terms *)
+  (forall got n cmd,
+    rn_add_mismatch got n (is_cmd cmd CmdA) (is_cmd cmd CmdC) (is_cmd cmd CmdD)
+    = negb (got =? n) && match cmd with CmdD => false | _ => true end) /\
+  (forall got n cmd,
+    rn_del_mismatch got n (is_cmd cmd CmdA) (is_cmd cmd CmdC) (is_cmd cmd CmdD)
+    = negb (got =? n) && match cmd with CmdA => false | _ => true end).
 
 Ltac conjuncts := repeat match goal with |- _ /\ _ => split end.
 
 Lemma skeleton_pinned :
-  skeleton_of_source = skeleton_of_model /\ formatters_as_modelled /\ readers_as_modelled /\ switches_as_transcribed.
+  skeleton_of_source = skeleton_of_model /\ formatters_as_modelled /\ readers_as_modelled /\ switches_as_generated.
 Proof.
   split; [reflexivity|]. split; [|split].
   - unfold formatters_as_modelled, picks2, picks3, picks4. conjuncts; intros; reflexivity.
@@ -190,5 +229,5 @@ Proof.
     + destruct below, ys; reflexivity.
     + destruct below, xs; reflexivity.
     + destruct out; reflexivity.
-  - unfold switches_as_transcribed. conjuncts; intros; reflexivity.
+  - unfold switches_as_generated. conjuncts; intros; try reflexivity; destruct cmd; reflexivity.
 Qed.
